@@ -43,6 +43,72 @@ def presence_tests(w, cfb):
                                 closure_ok = True
             if over_basis and closure_ok:
                 out.append(e)
+    # second idiom: a named predicate `fn ..(.., basis_entry) -> bool` of the crate that is true only if every address'
+    # block is present - written with all(), or as a loop that returns false at the first absent block
+    for e in cfb.events:
+        if e.bb not in cfb.live or e.callee == rules.POLL:
+            continue
+        tgt = e.resolved or e.callee or ""
+        fb = lib.bodies.get(tgt)
+        if fb is None or (fb.ret or "") != "bool" or not fb.file.startswith("src/") or e in out:
+            continue
+        if _presence_predicate(w, fb) and any(
+                any(x[0] in ("param", "upvar") and x[1] == "basis_entry" for x in flow.origins_x(lib, cfb, a)) for a in e.args):
+            out.append(e)
+    return out
+
+
+def _presence_predicate(w, fb):
+    """Is bool-returning body `fb` 'all blocks of the given entry are present'?"""
+    lib = w.lib
+    inner = [x for x in presence_tests_in(w, fb)]
+    if inner:
+        # returns exactly the result of an all(contains) test
+        ret = flow.origins_x(lib, fb, 0)
+        return any(x[0] == "call" and x[1].endswith("Iterator::all") for x in ret) and not [x for x in ret if x[0] in ("arith",)]
+    cont = events_of(lib, fb, "blockdir::BlockDir::contains")
+    nxt = [x for x in fb.events if x.bb in fb.live and x.callee == "std::iter::Iterator::next"]
+    if len(cont) != 1 or len(nxt) != 1:
+        return False
+    over = flow.origins_x(lib, fb, nxt[0].args[0], through_calls=[r"IntoIterator>?::into_iter$", r"<impl \[T\]>::iter$"])
+    if not any(x[0] == "param" and "addrs" in x[2] for x in over):
+        return False
+    arg_from = flow.origins_x(lib, fb, cont[0].args[1])
+    if not any("hash" in (x[3] if x[0] == "call" else x[2] if x[0] in ("param", "upvar") else ()) for x in arg_from):
+        return False
+    t_edges = rules.bool_switch_edges(fb, cont[0], True)
+    trues = [bb for bb, j, st in fb.all_assigns() if st["pl"]["l"] == 0 and not st["pl"]["p"] and st["rv"]["rk"] == "use"
+             and st["rv"]["ops"][0].get("k") == "const" and st["rv"]["ops"][0].get("int") == "1"]
+    if not trues or not t_edges:
+        return False
+    some_t = None
+    for (sb, tested, arms, other) in flow.discriminant_switches(fb, flow.result_carriers(fb, nxt[0].dest["l"])):
+        some_t = arms.get(1)
+    if some_t is None:
+        return False
+    # from "got an address", without contains()==true neither the next iteration nor `true` is reachable
+    reach = fb.reachable(some_t, removed_edges=t_edges)
+    if nxt[0].bb in reach or any(t in reach for t in trues):
+        return False
+    return True
+
+
+def presence_tests_in(w, body):
+    """all(|a| contains(a.hash)) tests over a parameter's addrs inside `body` (used for predicate helpers)."""
+    lib = w.lib
+    out = []
+    for e in body.events:
+        if e.bb in body.live and (e.callee or "") == "std::iter::Iterator::all":
+            recv = flow.origins_x(lib, body, e.args[0], through_calls=[r"<impl \[T\]>::iter$"])
+            if not any(x[0] == "param" and "addrs" in x[2] for x in recv):
+                continue
+            for a in e.args[1:]:
+                for oo in flow.origins(body, a):
+                    if oo[0] == "agg" and oo[1] in lib.bodies:
+                        cb = lib.bodies[oo[1]]
+                        cont = events_of(lib, cb, "blockdir::BlockDir::contains")
+                        if cont and _true_implies_call(lib, cb, "contains"):
+                            out.append(e)
     return out
 
 
